@@ -54,7 +54,9 @@ int io::buffer::advance()
 }
 int io::buffer::reset()
 {
-	_state.done = _d.length() - _state.scratch;
+	// access content to avoid type traits check of array length
+	const array::content *c = _d.data();
+	_state.done = (c ? c->length() : 0) - _state.scratch;
 	return _state.done;
 }
 
